@@ -184,7 +184,7 @@ _HCOBS_NOTE = ("Trusted: Lean kernel + 3 standard axioms; the correspondence har
 
 SPECS["C01"] = dict(
     title="HCOBS round trip: decoding an encoded message returns the original bytes",
-    lean_modules=["Woodpile.Props.C01"],
+    lean_modules=["Woodpile.Props.C01", "Woodpile.Props.C01W"],
     theorems=[
         "Woodpile.Props.C01.enc_impl_refines_spec",
         "Woodpile.Props.C01.enc_split_independent",
@@ -201,6 +201,12 @@ SPECS["C01"] = dict(
         "Woodpile.Props.C01.dec_refines_spec_drained",
         "Woodpile.Props.C01.roundtrip_given_spec",
         "Woodpile.Props.C01.roundtrip",
+        "Woodpile.Props.C01W.encWorld_no_panic_partial",
+        "Woodpile.Props.C01W.encWorld_is_ops_partial",
+        "Woodpile.Props.C01W.encWorld_abs_between_calls_partial",
+        "Woodpile.Props.C01W.encWorld_abs_partial",
+        "Woodpile.Props.C01W.enc_world_output_partial",
+        "Woodpile.Props.C01W.world_roundtrip_partial",
     ],
     families=[dict(name="hcobs_enc", quick=8000, thorough=200000, search=40000), dict(name="hcobs_dec", quick=8000, thorough=200000, search=40000)],
     vtags=["C01"],
@@ -220,7 +226,7 @@ SPECS["C01"] = dict(
 
 SPECS["C02"] = dict(
     title="HCOBS output never contains the stuff sequence, is split-independent, bounded",
-    lean_modules=["Woodpile.Props.C02", "Woodpile.Props.C01"],
+    lean_modules=["Woodpile.Props.C02", "Woodpile.Props.C01", "Woodpile.Props.C02W"],
     theorems=[
         "Woodpile.Props.C02.prod_params_valid",
         "Woodpile.Props.C02.stuff_consts",
@@ -246,6 +252,9 @@ SPECS["C02"] = dict(
         "Woodpile.Props.C01.dec_refines_spec_drained",
         "Woodpile.Props.C01.roundtrip_given_spec",
         "Woodpile.Props.C01.roundtrip",
+        "Woodpile.Props.C02W.enc_world_no_stuff_partial",
+        "Woodpile.Props.C02W.enc_world_split_independent_partial",
+        "Woodpile.Props.C02W.enc_world_length_bound_prod_partial",
     ],
     families=[dict(name="hcobs_enc", quick=8000, thorough=200000, search=40000)],
     vtags=["C02"],
